@@ -936,24 +936,9 @@ where
 
     /// Insert and get node ID
     pub fn insert_and_get_node_id(&mut self, key: &[u8]) -> Result<StateId> {
-        match &mut self.storage {
-            TrieStorage::Patricia { nodes, edge_data, compressed_paths } => {
-                let node_id = Self::insert_patricia_actual(nodes, edge_data, compressed_paths, key)?;
-                self.stats.num_keys += 1;
-                Ok(node_id)
-            }
-            TrieStorage::Louds { louds, is_link, next_link, label_data, core_data, next_trie } => {
-                // Delegate to the LOUDS-specific insert implementation
-                let node_id = Self::insert_louds(louds, is_link, next_link, label_data, core_data, next_trie, key)?;
-                self.stats.num_keys += 1;
-                Ok(node_id)
-            }
-            _ => {
-                // For other storage types, return 0 for now
-                self.stats.num_keys += 1;
-                Ok(0)
-            }
-        }
+        // The trait method inserts into every storage type, returns the node id of the key and
+        // counts the key only when it is new (re-inserting an existing key must not change len)
+        <Self as Trie>::insert(self, key)
     }
 
     /// Lookup node ID for a key
